@@ -6,7 +6,7 @@ base = json.load(open('/root/.vp/BASELINE.json'))
 stable = set(base['stable_pass'])
 env = dict(os.environ, CARGO_NET_OFFLINE='true')
 env.pop('RUSTFLAGS', None)
-p = subprocess.run(['cargo', 'test', '--workspace', '--no-fail-fast', '--offline'], cwd='/repo', env=env,
+p = subprocess.run(['cargo', 'test', '--workspace', '--no-fail-fast', '--offline'], cwd=os.environ.get('REPO_DIR', '/repo'), env=env,
                    stdout=subprocess.PIPE, stderr=subprocess.STDOUT, text=True)
 passed, failed = set(), set()
 crate = None
